@@ -40,6 +40,19 @@ func C09(env *Env) {
 	env.c09SerTail()
 	env.c09Constants()
 	env.c09Entry()
+	// no lossy arithmetic on sizes and offsets in either direction
+	kinds := map[string]bool{"NC": true, "OV": true}
+	env.safetyKinds("C09", kinds, "abi", "QuoteToProto")
+	env.safetyKinds("C09", kinds, "abi", "QuoteToAbiBytes")
+	var entries []*ssa.Function
+	for _, n := range []string{"QuoteToProto", "QuoteToAbiBytes", "CheckQuoteV4", "HeaderToAbiBytes", "TdQuoteBodyToAbiBytes", "EnclaveReportToAbiBytes"} {
+		if f := env.fn("abi", n); f != nil {
+			entries = append(entries, f)
+		}
+	}
+	env.errorsNotLost("C09/ERRFLOW", inPackages(env.calleesBelow(entries...), "abi"))
+	r.Floor("C09/ERRFLOW", 10)
+	r.Floor("C09/NC", 10)
 	r.Floor("C09/LAYOUT", 15)
 	r.Floor("C09/NARROW", 7)
 	r.Floor("C09/PRED", 28)
